@@ -22,29 +22,42 @@ from .values import AbsVal, Builtin, Raised, SymBool, Unknown, to_rat
 
 class Dim:
     """Window [lo, n + hi) along physical axis `axis` of a domain of symbolic size n.
-    region: optional label when the window is a named sub-range (detector / pml slice)."""
+    region: optional label when the window is a named sub-range (detector / pml slice).
+    dl / dh: number of cells at the low / high end whose value was contaminated by a
+    wrap-around (jnp.roll); they must be sliced away before the array is used."""
 
-    __slots__ = ("axis", "n", "lo", "hi", "region")
+    __slots__ = ("axis", "n", "lo", "hi", "region", "dl", "dh")
 
-    def __init__(self, axis, n, lo=0, hi=0, region=None):
+    def __init__(self, axis, n, lo=0, hi=0, region=None, dl=0, dh=0):
         self.axis = axis
         self.n = n
         self.lo = lo
         self.hi = hi
         self.region = region
+        self.dl = dl
+        self.dh = dh
 
     def same_size(self, o: "Dim") -> bool:
         return self.n == o.n and (self.hi - self.lo) == (o.hi - o.lo) and self.region == o.region
 
-    def with_(self, lo=None, hi=None, region=None):
-        return Dim(self.axis, self.n, self.lo if lo is None else lo, self.hi if hi is None else hi, self.region if region is None else region)
+    def with_(self, lo=None, hi=None, region=None, dl=None, dh=None):
+        return Dim(
+            self.axis,
+            self.n,
+            self.lo if lo is None else lo,
+            self.hi if hi is None else hi,
+            self.region if region is None else region,
+            self.dl if dl is None else dl,
+            self.dh if dh is None else dh,
+        )
 
     def size_rat(self) -> Rat:
         return Rat.atom(self.n) + (self.hi - self.lo)
 
     def __repr__(self):
         r = f"|{self.region}" if self.region else ""
-        return f"{self.n}[{self.lo}:{self.hi}]{r}"
+        d = f"!{self.dl},{self.dh}" if (self.dl or self.dh) else ""
+        return f"{self.n}[{self.lo}:{self.hi}]{r}{d}"
 
     def key(self):
         return (self.axis, self.n, self.lo, self.hi, self.region)
@@ -353,6 +366,7 @@ def elementwise(f, a: NdArr, b: NdArr) -> NdArr:
             if dx.axis != dy.axis or not dx.same_size(dy):
                 raise Raised("ValueError", f"operands could not be broadcast together: {dx!r} vs {dy!r} in shapes {a.full_shape()} {b.full_shape()}")
             pick = dx if abs(dx.lo) <= abs(dy.lo) else dy
+            pick = pick.with_(dl=max(dx.dl, dy.dl), dh=max(dx.dh, dy.dh))
             res.append(("s", pick))
             sa.append(dx.lo - pick.lo)
             sb.append(dy.lo - pick.lo)
@@ -519,7 +533,7 @@ def getitem(a: NdArr, idx) -> NdArr:
             else:
                 new_sp.append(Dim(d.axis, d.n, 0, 0, region=("slice", _k(st), _k(sp_), d.lo)))
                 continue
-            new_sp.append(Dim(d.axis, d.n, lo, hi, region))
+            new_sp.append(Dim(d.axis, d.n, lo, hi, region, max(0, d.dl - (lo - d.lo)), max(0, d.dh - (d.hi - hi))))
         elif isinstance(i, int):
             post_shift.append((d, i))
         else:
@@ -589,12 +603,16 @@ class _At(AbsVal):
 
 
 def at_update(arr: NdArr, idx, mode: str, val) -> NdArr:
+    """arr.at[idx].set/add/multiply(val) as base + indicator(region) * (target - base)."""
+    if arr.trail:
+        raise AnalysisError(".at update on an array with trailing explicit dims")
     nidx = _norm_index(idx, arr.ndim)
+    if any(i is None for i in nidx):
+        raise AnalysisError(".at index with newaxis")
     ne = len(arr.shape)
     exp_idx = nidx[:ne]
     sp_idx = nidx[ne:]
     full_sp = all(isinstance(i, slice) and i == slice(None) for i in sp_idx)
-    # positions of explicit elements touched
     sel = []
     for pos, it_ in enumerate(exp_idx):
         size = arr.shape[pos]
@@ -606,17 +624,24 @@ def at_update(arr: NdArr, idx, mode: str, val) -> NdArr:
         else:
             raise AnalysisError(f".at index {it_!r}")
     sub = getitem(arr, tuple(exp_idx) + tuple(slice(None) for _ in sp_idx))
+    target_shape = getitem(arr, tuple(nidx))  # what numpy would assign into
     if not isinstance(val, NdArr):
         val = NdArr((), [val])
+    if val.sp:
+        if len(val.sp) != len(target_shape.sp) or not all(a.same_size(b) for a, b in zip(val.sp, target_shape.sp)):
+            raise Raised("ValueError", f"incompatible shapes for .at update: value {val.full_shape()} into {target_shape.full_shape()}")
     if full_sp:
         ind = None
     else:
         from .absint import region_key
 
         ind = Rat.atom(("ind", ("region", region_key(tuple(sp_idx)))))
-        # the value was computed on the sub-window; relabel it onto the base window
-        if val.sp:
-            val = NdArr(val.shape, val.data, arr.sp)
+        fixed_axes = [(d, _as_int(i)) for d, i in zip(arr.sp, sp_idx) if isinstance(_as_int(i), int)]
+        if fixed_axes:
+            val = val.map(lambda v: _unfix_position(v, fixed_axes))
+        # the value lives on the selected sub-window; express it on the base window
+        lead_missing = len(sub.shape) - len(val.shape)
+        val = NdArr(val.shape, val.data, arr.sp if (val.sp or fixed_axes) else ())
 
     def upd(old, new):
         old_r, new_r = to_rat(old), to_rat(new)
@@ -639,6 +664,19 @@ def at_update(arr: NdArr, idx, mode: str, val) -> NdArr:
         data[_flat_index(arr.shape, ix) if arr.shape else 0] = newsub.data[k]
         k += 1
     return NdArr(arr.shape, data, arr.sp)
+
+
+def _unfix_position(v, fixed_axes):
+    """Inverse of _fix_position for values written back at the same fixed index."""
+    if not isinstance(v, Rat):
+        return v
+    mapping = {}
+    for a in v.atoms():
+        if isinstance(a, tuple) and a and a[0] == "at" and isinstance(a[1], tuple) and len(a[1]) == 3 and a[1][1] == "fixed":
+            name, _, tag = a[1]
+            axes = [t[0] for t in tag]
+            mapping[a] = Rat.atom(("at", name, a[2], tuple(sorted(set(a[3]) | set(axes)))))
+    return v.subs(mapping) if mapping else v
 
 
 # ---------------------------------------------------------------------------
@@ -699,12 +737,64 @@ def _realign(a: NdArr, sp):
     return NdArr(a.shape, [_shift_all(v, a.sp, shifts) for v in a.data], sp)
 
 
+def _rename_atoms(v, fn):
+    if not isinstance(v, Rat):
+        return v
+    mapping = {}
+    for a in v.atoms():
+        if isinstance(a, tuple) and a and a[0] == "at":
+            mapping[a] = Rat.atom(("at", fn(a[1]), a[2], a[3]))
+    return v.subs(mapping) if mapping else v
+
+
+def _concat_spatial(arrs, j):
+    """Concatenation along spatial dim j: only the edge-replication idioms are modelled."""
+    def win(a):
+        return a.sp[j]
+
+    def is_first_cell(d):
+        return d.region is not None and d.region[0] == "fixed" and d.region[2] - d.region[1] == 1
+
+    def is_last_cell(d):
+        return d.region is not None and d.region[0] == "tail" and d.region[2] - d.region[1] == 1
+
+    def same_expr(a, b):
+        return len(a.data) == len(b.data) and all(to_rat(x).equals(to_rat(y)) for x, y in zip(a.data, b.data))
+
+    if len(arrs) == 2:
+        a, b = arrs
+        da, db = win(a), win(b)
+        if is_first_cell(da) and db.region is None and same_expr(a, b):
+            # [x[:1], x[:-1]]  ->  x shifted down by one, first cell replicated
+            full = db.with_(hi=db.hi + 1)
+            if da.region[1] != db.lo:
+                raise AnalysisError("concatenate: first-cell slice does not start at the window start")
+            sp = list(b.sp)
+            sp[j] = full
+            return NdArr(b.shape, [_rename_atoms(shift_value(v, full.axis, -1), lambda n: ("edge-shift", n)) for v in b.data], tuple(sp), b.trail)
+        if is_last_cell(db) and da.region is None and same_expr(a, b):
+            full = da.with_(lo=da.lo - 1)
+            sp = list(a.sp)
+            sp[j] = full
+            return NdArr(a.shape, [_rename_atoms(shift_value(v, full.axis, 1), lambda n: ("edge-shift", n)) for v in a.data], tuple(sp), a.trail)
+    if len(arrs) == 3:
+        a, b, c = arrs
+        if is_first_cell(win(a)) and is_last_cell(win(c)) and win(b).region is None and same_expr(a, b) and same_expr(b, c):
+            d = win(b)
+            sp = list(b.sp)
+            sp[j] = d.with_(lo=d.lo - 1, hi=d.hi + 1)
+            return NdArr(b.shape, [_tag_pad(v, ((d.axis, 1, 1, "edge"),)) for v in b.data], tuple(sp), b.trail)
+    raise AnalysisError("concatenate along a spatial axis: unrecognised idiom")
+
+
 def concatenate(arrs, axis=0) -> NdArr:
     arrs = [lift(a) for a in arrs]
     base = arrs[0]
     ax = axis % base.ndim
+    if len(base.shape) <= ax < len(base.shape) + len(base.sp):
+        return _concat_spatial(arrs, ax - len(base.shape))
     if ax >= len(base.shape):
-        raise AnalysisError("concatenate along a spatial axis")
+        raise AnalysisError("concatenate along a trailing explicit axis")
     nested = [a.nested() for a in arrs]
 
     def cat(level, items):
@@ -755,6 +845,14 @@ def reshape(a: NdArr, new_shape) -> NdArr:
         new_shape = tuple(new_shape[0])
     new_shape = [_as_int(x) for x in new_shape]
     total = _prod(a.shape)
+    if len(a.sp) == 1 and not a.shape and not a.trail and len(new_shape) > 1:
+        # 1-D array reshaped for broadcasting: its size once, 1 everywhere else
+        d = a.sp[0]
+        hits = [i for i, t in enumerate(new_shape) if isinstance(t, Rat) and t.equals(d.size_rat())]
+        ones = [i for i, t in enumerate(new_shape) if t == 1]
+        if len(hits) == 1 and len(hits) + len(ones) == len(new_shape):
+            return NdArr((1,) * hits[0], a.data, a.sp, (1,) * (len(new_shape) - hits[0] - 1))
+        raise AnalysisError(f"reshape of a 1-D spatial array to {new_shape}")
     if a.sp:
         # trailing entries equal to the spatial sizes stay implicit
         k = len(a.sp)
@@ -1102,8 +1200,163 @@ def _x_cross(args, kw):
     return stack(c, ax)
 
 
+def _x_pad(args, kw):
+    a = lift(args[0])
+    pw = kw.get("pad_width", args[1] if len(args) > 1 else None)
+    mode = kw.get("mode", args[2] if len(args) > 2 else "constant")
+    pw = [tuple(_as_int(x) for x in p) for p in pw]
+    if len(pw) != a.ndim:
+        raise AnalysisError(f"np.pad: pad_width rank {len(pw)} for array of rank {a.ndim}")
+    ne = len(a.shape)
+    if any(p != (0, 0) for p in pw[:ne]) or a.trail:
+        raise AnalysisError("np.pad on an explicit axis")
+    sp = []
+    tags = []
+    for d, (b, e) in zip(a.sp, pw[ne:]):
+        sp.append(d.with_(lo=d.lo - b, hi=d.hi + e))
+        if (b, e) != (0, 0):
+            tags.append((d.axis, b, e, mode))
+    if not tags:
+        return a
+    return NdArr(a.shape, [_tag_pad(v, tuple(tags)) for v in a.data], tuple(sp))
+
+
+def _tag_pad(v, tags):
+    """Record the halo mode on every positional atom: name -> ('pad', name, ((axis,b,e,mode),...))."""
+    if not isinstance(v, Rat):
+        if isinstance(v, (int, Fraction)) and v == 0:
+            return v
+        v = to_rat(v)
+    mapping = {}
+    for a in v.atoms():
+        if isinstance(a, tuple) and a and a[0] == "at":
+            name = a[1]
+            if isinstance(name, tuple) and name and name[0] == "pad":
+                name = ("pad", name[1], tuple(sorted(set(name[2]) | set(tags))))
+            else:
+                name = ("pad", name, tuple(sorted(tags)))
+            mapping[a] = Rat.atom(("at", name, a[2], a[3]))
+    return v.subs(mapping) if mapping else v
+
+
+def strip_pad(v):
+    """Forget halo-mode tags (interior semantics)."""
+    if not isinstance(v, Rat):
+        return v
+    mapping = {}
+    for a in v.atoms():
+        if isinstance(a, tuple) and a and a[0] == "at" and isinstance(a[1], tuple) and a[1] and a[1][0] == "pad":
+            mapping[a] = Rat.atom(("at", a[1][1], a[2], a[3]))
+    return v.subs(mapping) if mapping else v
+
+
+def pad_tags(v) -> set:
+    out = set()
+    if isinstance(v, Rat):
+        for a in v.atoms():
+            if isinstance(a, tuple) and a and a[0] == "at" and isinstance(a[1], tuple) and a[1] and a[1][0] == "pad":
+                out.add((a[1][1], a[1][2]))
+    return out
+
+
+def _x_roll(args, kw):
+    a = lift(args[0])
+    shift = kw.get("shift", args[1] if len(args) > 1 else None)
+    axis = kw.get("axis", args[2] if len(args) > 2 else None)
+    if axis is None:
+        if a.ndim != 1:
+            raise AnalysisError("np.roll without axis on a multi-dimensional array")
+        axis = 0
+    shifts = list(shift) if isinstance(shift, (tuple, list)) else [shift]
+    axes = list(axis) if isinstance(axis, (tuple, list)) else [axis]
+    if len(shifts) != len(axes):
+        raise Raised("ValueError", "roll: shift and axis must have the same length")
+    ne = len(a.shape)
+    cur = a
+    for k, ax in zip(shifts, axes):
+        k = _as_int(k)
+        ax = int(_as_int(ax)) % a.ndim
+        if not isinstance(k, int):
+            raise AnalysisError("symbolic roll shift")
+        if ax < ne:
+            idx = [slice(None)] * len(cur.shape)
+            n = cur.shape[ax]
+            order = [(i - k) % n for i in range(n)]
+            idx[ax] = order
+            cur = getitem(cur, tuple(idx))
+        else:
+            j = ax - ne
+            d = cur.sp[j]
+            sp = list(cur.sp)
+            # out[i] = in[i - k]: low end contaminated for k > 0, high end for k < 0
+            sp[j] = d.with_(dl=d.dl + max(k, 0), dh=d.dh + max(-k, 0))
+            cur = NdArr(cur.shape, [shift_value(v, d.axis, -k) for v in cur.data], tuple(sp), cur.trail)
+    return cur
+
+
+def assert_clean(a: "NdArr", what=""):
+    for d in a.sp:
+        if d.dl or d.dh:
+            raise AnalysisError(f"{what}: wrap-around cells of a rolled array survive ({d!r})")
+
+
+def _x_eye(args, kw):
+    n = int(_as_int(args[0]))
+    return NdArr((n, n), [1 if i == j else 0 for i in range(n) for j in range(n)])
+
+
+def _x_einsum(args, kw):
+    spec = args[0]
+    ops = [lift(x) for x in args[1:]]
+    if not isinstance(spec, str):
+        raise AnalysisError("einsum with non-literal subscripts")
+    ins, out = spec.replace(" ", "").split("->")
+    ins = ins.split(",")
+    if len(ins) != len(ops):
+        raise AnalysisError("einsum operand count")
+    sizes = {}
+    sp = ()
+    exp_labels = []
+    for lab, op in zip(ins, ops):
+        ne = len(op.shape)
+        nsp = len(op.sp)
+        if len(lab) != ne + nsp or op.trail:
+            raise AnalysisError(f"einsum: labels {lab!r} for {op!r}")
+        for ch, n in zip(lab[:ne], op.shape):
+            if sizes.setdefault(ch, n) != n:
+                raise Raised("ValueError", f"einsum size mismatch for {ch}")
+        if nsp:
+            sp_lab = lab[ne:]
+            if sp and sp_labels != sp_lab:
+                raise AnalysisError("einsum with differing spatial labels")
+            sp_labels = sp_lab
+            sp = op.sp
+        exp_labels.append(lab[:ne])
+    out_exp = out[: len(out) - len(sp)] if sp else out
+    if sp and out[len(out_exp):] != sp_labels:
+        raise AnalysisError("einsum reducing over spatial labels")
+    summed = sorted(set("".join(exp_labels)) - set(out_exp))
+    data = []
+    for oix in itertools.product(*[range(sizes[c]) for c in out_exp]):
+        env = dict(zip(out_exp, oix))
+        tot = 0
+        for six in itertools.product(*[range(sizes[c]) for c in summed]):
+            env.update(zip(summed, six))
+            term = 1
+            for lab, op in zip(exp_labels, ops):
+                v = op.data[_flat_index(op.shape, [env[c] for c in lab]) if op.shape else 0]
+                term = _scalar_binop("mul", term, v)
+            tot = _scalar_binop("add", tot, term)
+        data.append(tot)
+    return NdArr(tuple(sizes[c] for c in out_exp), data, sp)
+
+
 ARR_EXT.update(
     {
+        "np.pad": _x_pad,
+        "np.roll": _x_roll,
+        "np.eye": _x_eye,
+        "np.einsum": _x_einsum,
         "np.stack": _x_stack,
         "np.concatenate": _x_concat,
         "np.sum": _x_sum,
